@@ -264,11 +264,16 @@ def stream_names(c, SI, N):
         if real != ans[i]:
             nbad += 1; c.broken_no_input('corr:_split_factors', 'model and implementation disagree', dict(stream='names', op='split', s=s, real=real, model=ans[i]))
         # Quantity.__getattr__('[s]')
-        try: real = 'ok|' + pows_str(powers_of(getattr(SI.Quantity, '[' + s + ']')))
-        except Exception as e: real = 'err|' + exc_name(e)
-        c.count('getattr:' + real.split('|')[0])
         if ans[n + i].startswith('ok|') and ans[n + i].endswith('|0'):
-            c.count('getattr:skipped-ambiguous-base')     # a base symbol that Dimension.create rejects: the name cache is history dependent
+            # a base symbol that Dimension.create rejects: the name cache is history dependent, and resolving such a name for real
+            # would plant a class with foreign bases under the name of a legitimate dimension for the rest of this process
+            c.count('getattr:skipped-ambiguous-base')
+            real = None
+        else:
+            try: real = 'ok|' + pows_str(powers_of(getattr(SI.Quantity, '[' + s + ']')))
+            except Exception as e: real = 'err|' + exc_name(e)
+            c.count('getattr:' + real.split('|')[0])
+        if real is None: pass
         elif real != ans[n + i].rsplit('|', 1)[0] if ans[n + i].startswith('ok|') else real != ans[n + i]:
             nbad += 1; c.broken_no_input('corr:Dimension.__getattr__', 'model and implementation disagree', dict(stream='names', op='getattr', s=s, real=real, model=ans[n + i]))
         # Dimension.create
@@ -385,11 +390,14 @@ def stream_handlers(c, SI, entries, N, out):
 HALF_DIMS = [{'L': F(1)}, {'T': F(1)}, {'L': F(1), 'T': F(-1)}, {'M': F(1, 2)}, {'L': F(2)}, {'L': F(-1)}, {'M': F(1), 'L': F(1), 'T': F(-2)},
              {'L': F(1, 2), 'T': F(-3, 2)}, {'θ': F(-1)}, {'I': F(2), 'T': F(1)}]
 
+class NotQuarter(ValueError):
+    'the rescaling test needs exponents that are multiples of 1/4 (scale factors must be exact powers of two)'
+
 def scale_of(p):
     """factor by which the numerical value of a quantity of dimension p changes when every reference unit shrinks by 16
     (exponents are multiples of 1/4, so this is an exact power of two)"""
     e = sum(p.values(), F(0)) * 4
-    if e.denominator != 1: raise ValueError('exponent is not a multiple of 1/4')
+    if e.denominator != 1: raise NotQuarter('exponent is not a multiple of 1/4')
     return 2. ** int(e)
 
 class World:
@@ -543,7 +551,7 @@ def evaluate_result(SI, W, r, ev):
     smp = dict(smp=W.smp, bsmp=W.bsmp, ismp=W.ismp, smp3=W.smp3)[ev]
     return [numpy.asarray(smp.eval(r, arguments={k: v for k, v in args.items() if k in r.arguments}))]
 
-def same(a, b, tol):
+def same(a, b, tol, atol=None):
     import numpy
     if len(a) != len(b): return False
     for x, y in zip(a, b):
@@ -552,7 +560,7 @@ def same(a, b, tol):
             if x.shape != y.shape: return False
             if x.dtype.kind in 'fc' or y.dtype.kind in 'fc':
                 if tol:
-                    if not numpy.allclose(x, y, rtol=tol, atol=tol * 1e-3, equal_nan=True): return False
+                    if not numpy.allclose(x, y, rtol=tol, atol=tol * 1e-3 if atol is None else atol, equal_nan=True): return False
                 elif not numpy.array_equal(x, y, equal_nan=True): return False
             elif not numpy.array_equal(x, y): return False
         elif x != y: return False
@@ -695,7 +703,9 @@ def stream_api(c, SI, entries, N, out):
             v2 = evaluate_result(SI, W, r2, ev)
             res2 = list(r2) if kind == 'evaluate' and isinstance(r2, tuple) else [r2]
             expect = [x * scale_of(d) if isinstance(x, numpy.ndarray) and x.dtype.kind in 'fc' and len(v_real) == len(res2) else x for x, d in zip(v_real, got_dims * (len(v_real) // max(1, len(got_dims))))]
-            okscale = same(v2, expect, tol)
+            okscale = same(v2, expect, tol, atol=(1e-9 * max([scale_of(d) for d in got_dims] + [1.])) if tol else None)
+        except NotQuarter:
+            c.count('api:unit-invariance-skipped-eighth-exponent'); continue
         except Exception as e:
             okscale = False; v2 = repr(e)
         if not okscale:
@@ -1347,14 +1357,16 @@ def stream_compositions(c, SI, N):
                 v_real = evaluate_result(SI, W, r, ev); v_plain = evaluate_result(SI, W, plain, ev)
             except Exception as e:
                 nbad += 1; c.broken_no_input('corr:composition-evaluation', 'cannot evaluate: %s' % type(e).__name__, dict(replay, exc=repr(e)[:300])); continue
-            if not same(v_real, v_plain, 1e-12 if fn else 0):
+            if not same(v_real, v_plain, 1e-12 if fn else 0, atol=1e-11 if fn else None):
                 nbad += 1; c.failing_input('composition:value-differs', 'value of a composed expression differs from the same computation on plain numbers', dict(replay, real=repr(v_real)[:200], plain=repr(v_plain)[:200])); continue
             c.traces += 1
             if all(quarter(d) for d in leafdims) and quarter(spec[1]):
                 try:
                     r2 = tree_eval(SI, t, leaves(True), leafdims, True, True)
                     v2 = evaluate_result(SI, W, r2, ev)
-                    ok = same(v2, [x * scale_of(spec[1]) if isinstance(x, numpy.ndarray) and x.dtype.kind == 'f' else x for x in v_real], 1e-10)
+                    ok = same(v2, [x * scale_of(spec[1]) if isinstance(x, numpy.ndarray) and x.dtype.kind == 'f' else x for x in v_real], 1e-10, atol=1e-9 * scale_of(spec[1]) if fn else None)
+                except NotQuarter:
+                    c.count('compose:unit-invariance-skipped-eighth-exponent'); continue
                 except Exception as e:
                     ok = False; v2 = repr(e)
                 c.count('compose:unit-invariance-checked')
